@@ -142,6 +142,7 @@ type DialFunc func(ctx context.Context, network, addr string) (net.Conn, error)
 type ProxyOpts struct {
 	Name           string
 	ListenIP       string // default 127.0.0.1
+	ListenAddr     string // full host:port; overrides ListenIP
 	Upstream       string // URL
 	PAC            string // script
 	Credentials    []string
@@ -208,6 +209,9 @@ func StartProxy(o ProxyOpts) (*ProxyInst, error) {
 		ip = "127.0.0.1"
 	}
 	cfg.Address = net.JoinHostPort(ip, "0")
+	if o.ListenAddr != "" {
+		cfg.Address = o.ListenAddr
+	}
 	reg := prometheus.NewRegistry()
 	cfg.PromRegistry = reg
 	cfg.PromNamespace = "forwarder"
